@@ -1,18 +1,18 @@
 CONSTANTS
   FlowSet = {"flows/a.yaml", "flows/b.yaml"}
-  Endpoints = {"configuration", "apply_flows"}
-  Methods = {"PUT", "POST"}
-  MaxNth = 4
-  WithBadB64 = TRUE
+  Endpoints = {"apply_flows"}
+  Methods = {"PUT"}
+  MaxNth = 1
+  WithBadB64 = FALSE
   MxOld = {"m1"}
   GwOld = {"none"}
   MaxUpdates = 1
-  PayloadCats = {1, 4, 5}
+  PayloadCats = {1}
   AnchorFlows = {"flows/a.yaml"}
   Paths <- PathsMC
   Cat <- CatMC
   Inert <- NestedFlows
-  CleanSkips = {}
+  CleanSkips = {"flows/b.yaml"}
   Unseen = {}
   NestedPP = {}
   NestedFlows = {}
@@ -26,5 +26,5 @@ CONSTANTS
   StaleBackup = FALSE
   RecordHistory = FALSE
 SPECIFICATION SpecMC
-INVARIANT WitnessOpenTxnServedByNew
+INVARIANTS DiskAtomic BehavAtomic NeverHalf OneConfig Complete
 CHECK_DEADLOCK FALSE
